@@ -572,6 +572,14 @@ def check_nm_shrink(ctx: Ctx):
     t = ast.unparse(nm.node)
     ok = "simplex = [simplex[i] for i in order]" in t and "values = [values[i] for i in order]" in t and "order = sorted(range(n + 1), key=lambda i: values[i])" in t
     ctx.ob("C19-O1", "R5 PAIRING", nm, "vertices and values are reordered by the same permutation", ok, "", node=nm.node)
+    srt = [x for x in own_nodes(nm.node) if isinstance(x, ast.Assign) and ast.unparse(x.targets[0]) == "order" and ast.unparse(x.value).startswith("sorted(")]
+    loops_ = [x for x in own_nodes(nm.node) if isinstance(x, ast.For) and "max_iter" in ast.unparse(x.iter)]
+    uncond = len(srt) == 1 and len(loops_) == 1 and any(x is srt[0] for x in loops_[0].body)
+    if uncond:
+        i_ = loops_[0].body.index(srt[0])
+        perm = [ast.unparse(x) for x in loops_[0].body[i_ + 1 : i_ + 3]]
+        uncond = perm == ["simplex = [simplex[i] for i in order]", "values = [values[i] for i in order]"] and not any("values[0]" in ast.unparse(x) or "simplex[0]" in ast.unparse(x) for x in loops_[0].body[:i_])
+    ctx.ob("C19-O3", "R6 INCUMBENT", nm, "the simplex is re-sorted unconditionally at the top of every iteration (index 0 is the best vertex whenever it is read or shrunk towards)", uncond, "a sort that is skipped leaves a better vertex at an inner index after a shrink; the next shrink contracts towards the stale simplex[0] and overwrites the best point evaluated so far", node=srt[0] if srt else nm.node)
     ok = "best_idx = min(range(n + 1), key=lambda i: values[i])" in t
     ctx.ob("C19-O3", "R6 INCUMBENT", nm, "the returned vertex is the one with the smallest value among all kept vertices", ok, "", node=nm.node)
     # every replacement of the worst vertex stores the evaluated point with its value, adjacent
@@ -818,7 +826,20 @@ def _v_anneal_seed_truthiness(tree):
     M.replace_expr(g, lambda e: M.src_is(e, "Random(seed)"), M.expr("Random(seed) if seed else Random()"))
 
 
+def _v_nm_lazy_sort(tree):
+    g = M.find_func(tree, "nelder_mead")
+    loop = [x for x in ast.walk(g) if isinstance(x, ast.For) and "max_iter" in ast.unparse(x.iter)][0]
+    k = [i for i, st in enumerate(loop.body) if isinstance(st, ast.Assign) and M.src_is(st.targets[0], "order")]
+    if not k:
+        raise M.Skip("sort not found")
+    blk = loop.body[k[0] : k[0] + 3]
+    guard = M.stmts("if iteration == 1 or values[n] < values[n - 1]:\n    pass")[0]
+    guard.body = blk
+    loop.body[k[0] : k[0] + 3] = [guard]
+
+
 VARIANTS = [
+    M.Variant("nelder_mead re-sorts only when the worst vertex moved up (seed C19-O)", NM, _v_nm_lazy_sort, "C19-O3"),
     M.Variant("alns adapts the caller's weight list in place (seed C19-I)", LN, _v_alns_weights_aliased, "C19-O5"),
     M.Variant("exponential_cooling returns a schedule that remembers its temperature between runs (seed C19-M)", AN, _v_stateful_cooling_schedule, "C19-G3"),
     M.Variant("twin: alns copies its weights after the `or` default", LN, _t_alns_weights_copied_after_or, None),
